@@ -708,14 +708,20 @@ def l_test(info, a, b):
     e+=update_flag_logic(c)
     return e
 
+def unless_count_0(shifter, affs):
+    # a shift or rotate by a (masked) count of 0 changes no flag
+    return [ExprAff(x.dst, ExprCond(shifter, x.src, x.dst)) for x in affs]
+
 def l_rol(info, a, b):
     e= []
     c = ExprOp('<<<', a, b)
 
     new_cf = ExprOp("&", c ,ExprInt_from(a, 1))
-    e.append(ExprAff(cf, new_cf))
+    shifter = ExprOp('&', b, ExprInt_from(b, 0x1f))
+    f = [ExprAff(cf, new_cf)]
     ### hack (only valid if b=1)
-    e.append(ExprAff(of, ExprOp("^", get_op_msb(c), new_cf[0:1])))
+    f.append(ExprAff(of, ExprOp("^", get_op_msb(c), new_cf[0:1])))
+    e += unless_count_0(shifter, f)
     e.append(ExprAff(a, c))
     return e
 
@@ -723,9 +729,11 @@ def l_ror(info, a, b):
     e= []
     c = ExprOp('>>>', a, b)
 
-    e.append(ExprAff(cf, get_op_msb(c)))
+    shifter = ExprOp('&', b, ExprInt_from(b, 0x1f))
+    f = [ExprAff(cf, get_op_msb(c))]
     ### hack (only valid if b=1): when count == 1: a = msb-1(dest)
-    e.append(ExprAff(of, ExprOp("^", get_op_msb(c), get_op_msb(a))))
+    f.append(ExprAff(of, ExprOp("^", get_op_msb(c), get_op_msb(a))))
+    e += unless_count_0(shifter, f)
     e.append(ExprAff(a, c))
     return e
 
@@ -736,7 +744,8 @@ def rcl(info, a, b):
 
     e.append(ExprAff(cf, new_cf))
     ### hack (only valid if b=1)
-    e.append(ExprAff(of, ExprOp("^", get_op_msb(c), new_cf[0:1])))
+    shifter = ExprOp('&', b, ExprInt_from(b, 0x1f))
+    e += unless_count_0(shifter, [ExprAff(of, ExprOp("^", get_op_msb(c), new_cf[0:1]))])
     e.append(ExprAff(a, c))
     return e
 
@@ -747,7 +756,8 @@ def rcr(info, a, b):
 
     e.append(ExprAff(cf, new_cf))
     ### hack (only valid if b=1)
-    e.append(ExprAff(of, ExprOp("^", get_op_msb(a), get_op_msb(c))))
+    shifter = ExprOp('&', b, ExprInt_from(b, 0x1f))
+    e += unless_count_0(shifter, [ExprAff(of, ExprOp("^", get_op_msb(a), get_op_msb(c)))])
     e.append(ExprAff(a, c))
 
     return e
@@ -773,8 +783,7 @@ def sar(info, a, b):
                                   cf)
                      )
              )
-    e.append(ExprAff(of, ExprInt_from(a, 0)))
-    e+=update_flag_znp(c)
+    e += unless_count_0(shifter, [ExprAff(of, ExprInt_from(of, 0))] + update_flag_znp(c))
     e.append(ExprAff(a, c))
     return e
 
@@ -798,8 +807,7 @@ def shr(info, a, b):
                                   cf)
                      )
              )
-    e.append(ExprAff(of, get_op_msb(a)))
-    e+=update_flag_znp(c)
+    e += unless_count_0(shifter, [ExprAff(of, get_op_msb(a))] + update_flag_znp(c))
     e.append(ExprAff(a, c))
     return e
 
@@ -835,8 +843,10 @@ def shrd(info, a, b, c):
                                   cf)
                      )
              )
-    e.append(ExprAff(of, get_op_msb(a)))
-    e+=update_flag_znp(d)
+    # (of is defined for a count of 1: set when the sign changes)
+    e += unless_count_0(shifter, [ExprAff(of, ExprOp('^', get_op_msb(d),
+                                                     get_op_msb(a)))]
+                        + update_flag_znp(d))
     e.append(ExprAff(a, d))
     return e
 
@@ -858,8 +868,8 @@ def shl(info, a, b):
                                   cf)
                      )
              )
-    e+=update_flag_znp(c)
-    e.append(ExprAff(of, ExprOp('^', get_op_msb(c), new_cf)))
+    e += unless_count_0(shifter, update_flag_znp(c) +
+                        [ExprAff(of, ExprOp('^', get_op_msb(c), new_cf))])
     e.append(ExprAff(a, c))
     return e
 
@@ -894,9 +904,8 @@ def shld(info, a, b, c):
                                   cf)
                      )
              )
-    # XXX todo: don't update flag if shifter is 0
-    e+=update_flag_znp(c)
-    e.append(ExprAff(of, ExprOp('^', get_op_msb(c), new_cf[0:1])))
+    e += unless_count_0(shifter, update_flag_znp(c) +
+                        [ExprAff(of, ExprOp('^', get_op_msb(c), new_cf[0:1]))])
     e.append(ExprAff(a, ExprCond(shifter,
                                  c,
                                  a)))
